@@ -111,8 +111,10 @@ def execute(case):
     c, t = case["cfg"], case["ten"]
     X = matching_tensor(t) if t["op"] == "matching" else measured_tensor(t)
     dtype = case.get("dtype", "float64")
-    Xin = X.astype(dtype)          # integer dtypes only for integer-valued tensors (checked by the trace spec)
-    ev = {"id": case["id"], "cfg": c, "svd": case["svd"], "iters": case["iters"], "dtype": dtype,
+    pow2 = int(case.get("pow2", 0))
+    unit = 2.0 ** pow2             # exact scaling; the contract is scale invariant
+    Xin = (X * unit).astype(dtype) if pow2 else X.astype(dtype)   # integer dtypes only for integer-valued tensors (trace spec)
+    ev = {"id": case["id"], "cfg": c, "svd": case["svd"], "iters": case["iters"], "dtype": dtype, "pow2": pow2,
           "ten": {k: v for k, v in t.items() if k in ("op", "shape", "idx", "vals", "fam")}}
     nrm2 = float(np.sum(X ** 2))
     if t["op"] == "matching":
@@ -126,7 +128,7 @@ def execute(case):
             mr = min(M.shape)
             tails.append([max(0, q(float(np.sum(s[r:mr] ** 2)) / den, scale)) for r in range(mr + 1)])
         ev["tails"] = tails
-    out = {"raised": False, "exc": "none", "ranks": [], "err2_q": 0, "fin": False}
+    out = {"raised": False, "exc": "none", "about_rank": False, "ranks": [], "err2_q": 0, "fin": False}
     np.random.seed(case["seed"] % (2**32))       # tensor_train / tensor_ring have no random_state argument
     rspec, via = case.get("rspec", "list"), case.get("via", "function")
     ev["rspec"], ev["frac"], ev["via"] = rspec, int(case.get("frac", 0)), via
@@ -176,11 +178,12 @@ def execute(case):
         out["ranks"] = [int(r) for r in ranks]
         rec = np.asarray(rec).astype(np.float64)      # err^2 is measured in float64 against the float64 tensor
         if rec.shape == X.shape:
-            v = q(float(np.sum((X - rec) ** 2)) / den, scale)
+            with np.errstate(all="ignore"):
+                v = q(float(np.sum((X - rec / unit) ** 2)) / den, scale)
             if isinstance(v, int):
                 out["err2_q"], out["fin"] = v, True
     except Exception as ex:
-        out["raised"], out["exc"] = True, type(ex).__name__
+        out["raised"], out["exc"], out["about_rank"] = True, type(ex).__name__, "rank" in str(ex)
     ev["out"] = out
     return ev
 
@@ -235,7 +238,7 @@ def measured_cases(rng, reps, dtypes, shapes=MEASURED_SHAPES, fams=("generic", "
                             case = {"cfg": c, "ten": ten, "svd": svd, "dtype": dt,
                                     "iters": rng.choice([0, 1, 50]) if c["op"] == "tucker" else 0}
                             case.update(rank_form(rng, c, len(cases)))
-                            cases.append(case)
+                            cases.append(in_domain(case))
                 # rank specifications the routine resolves itself
                 for op in ("tucker", "tt", "tr") + (("ttm",) if N % 2 == 0 else ()):
                     for rs, frac in (("same", 0), ("float", rng.choice([25, 50, 100]))):
@@ -246,6 +249,27 @@ def measured_cases(rng, reps, dtypes, shapes=MEASURED_SHAPES, fams=("generic", "
     return cases
 
 
+POW2S = [0, 66, 0, -66, 0, 400, 0, -400]     # every second case keeps the natural magnitude
+
+
+KNOWN_BAD = {"mode": "exclude"}      # --opt known_bad=include: also run SVDDecomp.KnownBadCombination (to re-test after a repair)
+
+
+def in_domain(case):
+    """Steers a drawn case into SVDDecomp's domain (pow2 needs float64; SVDDecomp.KnownBadCombination)."""
+    if KNOWN_BAD["mode"] == "include":
+        if case["dtype"] != "float64":
+            case["pow2"] = 0
+        return case
+    if case["svd"] == "randomized_svd" and case["dtype"].startswith("int"):
+        case["dtype"] = "float64"
+    if case["dtype"] != "float64":
+        case["pow2"] = 0
+    if case["svd"] == "symeig_svd":
+        case["pow2"] = 0
+    return case
+
+
 def rank_form(rng, c, k):
     """Rotates the documented ways of passing the same rank vector and the call paths."""
     rs = ("list", "tuple", "npint")[k % 3]
@@ -254,7 +278,7 @@ def rank_form(rng, c, k):
         rs = "int"
     if c["op"] == "tucker" and list(c["rank"]) == list(c["shape"]) and k % 4 != 3:
         rs = "none"
-    out = {"rspec": rs, "frac": 0, "via": via}
+    out = {"rspec": rs, "frac": 0, "via": via, "pow2": POW2S[(k // 3) % len(POW2S)]}
     if via == "refit":
         if rs in ("tuple", "npint"):
             out["rspec"] = "list"            # a mutable list is what an estimator could corrupt between fits
@@ -263,6 +287,7 @@ def rank_form(rng, c, k):
 
 
 def run(chk, opts):
+    KNOWN_BAD["mode"] = opts.get("known_bad", "exclude")
     thorough = chk.tier == "thorough"
     rng = random.Random(chk.seed * 104729 + 9)
     r, cfgs = chk.export_configs("SVDDecompMC", "SVDDecompMC_thorough.cfg" if thorough else "SVDDecompMC_quick.cfg",
@@ -296,16 +321,16 @@ def run(chk, opts):
             case = {"cfg": c, "ten": ten, "svd": svd, "iters": iters[(k + m) % len(iters)] if c["op"] == "tucker" else 0,
                     "dtype": dtypes[(k // 2 + m) % len(dtypes)]}             # matching tensors are integer valued: every dtype applies
             case.update(rank_form(rng, c, k + 7 * m))
-            cases.append(case)
+            cases.append(in_domain(case))
     # rank specifications the routine resolves itself ('same', float), on a matching tensor of every shape
     for shape in sorted(tens):
         pool = tens[shape]
         for op in ("tucker", "tt", "tr") + (("ttm",) if len(shape) % 2 == 0 else ()):
             for j, (rs, frac) in enumerate((("same", 0), ("float", 25), ("float", 50), ("float", 100))):
-                cases.append({"cfg": {"op": op, "shape": list(shape), "rank": placeholder_rank(op, shape),
+                cases.append(in_domain({"cfg": {"op": op, "shape": list(shape), "rank": placeholder_rank(op, shape),
                                       "mode": rng.randrange(len(shape)) if op == "tr" else 0},
                               "ten": rng.choice(pool), "svd": svds[j % len(svds)] if op != "tucker" else "truncated_svd", "iters": 0,
-                              "dtype": dtypes[j % len(dtypes)], "rspec": rs, "frac": frac, "via": ("function", "class")[j % 2]})
+                              "dtype": dtypes[j % len(dtypes)], "rspec": rs, "frac": frac, "via": ("function", "class")[j % 2]}))
     n_exact = len(cases)
     if thorough or opts.get("measured"):
         cases += measured_cases(rng, int(opts.get("reps", 3 if thorough else 1)), dtypes)
@@ -332,7 +357,7 @@ def run(chk, opts):
             chk.sample({k: v for k, v in e.items() if k != "data"})
     commit = repo_commit(chk.repo)
     by_id = {e["id"]: e for e in events if "id" in e}
-    for rid, clause, _ in chk.validate("SVDDecompTrace", events):
+    for rid, clause, _ in chk.validate("SVDDecompTrace", events, env={"C09_KNOWN_BAD": KNOWN_BAD["mode"]}):
         case = chk.case_by_id.get(rid)
         chk.violations.append({"property": chk.pid, "id": rid, "clause": clause, "case": dict(case, derived=derived(case)),
                                "event": {k: v for k, v in by_id[rid].items() if k != "data"}, "extra": None,
@@ -350,5 +375,5 @@ def replay(chk, rec, opts):
     case = rec["case"]
     ev = execute(case)
     chk.sample({k: v for k, v in ev.items() if k != "data"})
-    for rid, clause, _ in chk.validate("SVDDecompTrace", [ev]):
+    for rid, clause, _ in chk.validate("SVDDecompTrace", [ev], env={"C09_KNOWN_BAD": opts.get("known_bad", "include")}):
         chk.violation(rid, clause, case=dict(case, derived=derived(case)), event=ev)
